@@ -163,6 +163,12 @@ def go_build(cmd="seqdiff"):
 class BuildError(Exception):
     pass
 
+class HarnessCrash(Exception):
+    """the harness process died while running the real code (a panic on a library goroutine, a fatal error …)"""
+    def __init__(self, cmd, output):
+        super().__init__("harness process crashed: " + output[-600:])
+        self.cmd, self.output = cmd, output
+
 def tool_build(name):
     """build tools/extract/<name> (stdlib-only Go) and return the binary path"""
     bdir = os.path.join(BUILD, "tools")
@@ -262,7 +268,7 @@ def run_seq(suite, seed, ncases, workdir, proj_model=ident, proj_spec=ident, rep
     cmd += ["-replay", replay] if replay else ["-seed", str(seed), "-cases", str(ncases)]
     rc, out = sh(cmd, env=GOENV, timeout=7200)
     if rc != 0:
-        raise RuntimeError("seqdiff failed (%s): %s" % (" ".join(cmd), out[-2000:]))
+        raise HarnessCrash(cmd, out)
     cases_p = os.path.join(workdir, suite + ".cases")
     real_p = os.path.join(workdir, suite + ".real")
     model_p = os.path.join(workdir, suite + ".model")
@@ -355,3 +361,60 @@ def load_known_findings(prop):
     if not os.path.exists(p):
         return []
     return [e for e in json.load(open(p)).get("findings", []) if e.get("property") == prop]
+
+
+def localize_crash(suite, seed, ncases, workdir, seqdiff, replay=None):
+    """the harness died: find the crashing case and shrink its ops with 'the process dies' as the predicate.
+    returns dict(header, ops, output) or None"""
+    os.makedirs(workdir, exist_ok=True)
+    dump = os.path.join(workdir, "dump")
+    if replay:
+        cases = list(split_cases(read_lines(replay)))
+    else:
+        rc, out = sh([seqdiff, "-suite", suite, "-seed", str(seed), "-cases", str(ncases), "-out", dump, "-dump"], env=GOENV, timeout=600)
+        if rc != 0: return None
+        cases = list(split_cases(read_lines(os.path.join(dump, suite + ".cases"))))
+    def crashes(header, ops):
+        p = os.path.join(workdir, "crash.cases")
+        with open(p, "w") as f:
+            f.write("case %s\n" % header)
+            for o in ops: f.write(o + "\n")
+            f.write("end\n")
+        rc, out = sh([seqdiff, "-suite", suite, "-replay", p, "-out", os.path.join(workdir, "crashrun")], env=GOENV, timeout=300)
+        return (rc != 0), out
+    # binary search over the case list (a crash needs a single case: cases are independent)
+    lo, hi = 0, len(cases)
+    def range_crashes(a, b):
+        p = os.path.join(workdir, "range.cases")
+        with open(p, "w") as f:
+            for header, ops, _ in cases[a:b]:
+                f.write("case %s\n" % header)
+                for o in ops: f.write(o + "\n")
+                f.write("end\n")
+        rc, _ = sh([seqdiff, "-suite", suite, "-replay", p, "-out", os.path.join(workdir, "crashrun")], env=GOENV, timeout=600)
+        return rc != 0
+    if not range_crashes(lo, hi): return None
+    while hi - lo > 1:
+        mid = (lo + hi) // 2
+        if range_crashes(lo, mid): hi = mid
+        elif range_crashes(mid, hi): lo = mid
+        else: return None   # needs more than one case: give up localising
+    header, ops, _ = cases[lo]
+    ok, out = crashes(header, ops)
+    if not ok: return None
+    # shrink ops
+    n = 2
+    budget = 60
+    while len(ops) >= 2 and budget > 0:
+        chunk = max(1, len(ops) // n); reduced = False
+        for start in range(0, len(ops), chunk):
+            cand = ops[:start] + ops[start + chunk:]
+            budget -= 1
+            if cand and crashes(header, cand)[0]:
+                ops = cand; n = max(n - 1, 2); reduced = True; break
+            if budget <= 0: break
+        if not reduced:
+            if chunk == 1: break
+            n = min(n * 2, len(ops))
+    _, out = crashes(header, ops)
+    return {"header": header, "ops": ops, "output": out[-2500:]}
